@@ -419,7 +419,7 @@ func init() {
 			// families, link-local included, IPv4 also in its ::ffff: AAAA form), one
 			// NS host each, alternately as referral glue and as the authoritative
 			// answer to the resolver's own NS-address lookup, next to one usable NS.
-			Name: "glue-local-interface", Family: "glue", Variants: []string{"v4", "v6", "every"},
+			Name: "glue-local-interface", Family: "glue", Variants: []string{"v4", "v6", "every", "every+ok"},
 			NeedV6:  func(v string) bool { return v != "v4" },
 			Trigger: q(subTrigger, dns.TypeA),
 			Install: func(w *world, c *CaseSpec) {
@@ -575,6 +575,7 @@ func installUnusableGlue(w *world, c *CaseSpec, addr string) {
 
 func installEveryLocalAddr(w *world, c *CaseSpec) {
 	zone := "sub.evil.test."
+	withOK := c.Variant == "every+ok"
 	type nsHost struct {
 		name string
 		rr   dns.RR
@@ -583,11 +584,15 @@ func installEveryLocalAddr(w *world, c *CaseSpec) {
 	var hosts []nsHost
 	var texts []string
 	add := func(text string) {
-		i := len(hosts)
-		h := nsHost{name: fmt.Sprintf("nsl%d.%s", i, zone), glue: i%2 == 0}
-		h.rr = addrRR(h.name, text)
-		hosts = append(hosts, h)
+		// each address twice: as referral glue for one host, and as the
+		// authoritative answer to the resolver's own address lookup for another
+		i := len(texts)
 		texts = append(texts, text)
+		g := nsHost{name: fmt.Sprintf("nslg%d.%s", i, zone), glue: true}
+		g.rr = addrRR(g.name, text)
+		r := nsHost{name: fmt.Sprintf("nslr%d.%s", i, zone)}
+		r.rr = addrRR(r.name, text)
+		hosts = append(hosts, g, r)
 	}
 	for _, a := range allLocalInterfaceAddrs() {
 		add(a.String())
@@ -595,22 +600,26 @@ func installEveryLocalAddr(w *world, c *CaseSpec) {
 			add("::ffff:" + a.String())
 		}
 	}
-	if len(hosts) == 0 {
+	if len(texts) == 0 {
 		c.Note = "no non-loopback interface address on this host: loopback used"
 		add("127.0.0.1")
 		add("::1")
 	}
 	c.Addr = strings.Join(texts, ",")
 	ok := "ns-ok." + zone
-	ns := []dns.RR{nsRR(zone, ok, dns.ClassINET)}
-	glue := glueFor(ok, "evil", false)
+	var ns, glue []dns.RR
+	if withOK {
+		// one usable nameserver: the delegation is stored and the resolver's
+		// background IPv6 address lookups run for the glue-less hosts
+		ns = append(ns, nsRR(zone, ok, dns.ClassINET))
+		glue = glueFor(ok, "evil", false)
+	}
 	for _, h := range hosts {
 		ns = append(ns, nsRR(zone, h.name, dns.ClassINET))
 		if h.glue {
 			glue = append(glue, h.rr)
 		}
 		h := h
-		// the authoritative answer to the resolver's own address lookup for the host
 		onAll(w, authsim.Rule{Name: h.name, Action: authsim.Tamper(c.Label+":addr", func(q, _ *dns.Msg) *dns.Msg {
 			m := replyTo(q, true)
 			if h.rr.Header().Rrtype == q.Question[0].Qtype {
@@ -635,9 +644,9 @@ func installEveryLocalAddr(w *world, c *CaseSpec) {
 	})})
 	var referred atomic.Int32
 	onAll(w, authsim.Rule{Name: "*." + zone,
-		// only the first question is referred: afterwards the same server is
-		// asked as the child zone's (usable) nameserver and answers from its data
-		Match: func(p *authsim.Packet) bool { return referred.Add(1) == 1 },
+		// with a usable nameserver only the first question is referred: afterwards
+		// the same server is asked as the child zone's server and answers from its data
+		Match: func(p *authsim.Packet) bool { return !withOK || referred.Add(1) == 1 },
 		Action: authsim.Tamper(c.Label, func(q, _ *dns.Msg) *dns.Msg {
 			return referral(q, ns, glue)
 		})})
